@@ -121,7 +121,7 @@ impl Prop for Rejections {
                     fields: vec![Field::new("x", Ty::n("u32"))],
                     ..Default::default()
                 })],
-                impls: vec![Impl { ty: "T".into(), funcs: vec![f] }],
+                impls: vec![Impl { more: vec![], ty: "T".into(), funcs: vec![f] }],
                 ..Default::default()
             }],
         };
@@ -206,7 +206,7 @@ impl Prop for DeclaredOrder {
             td.vft = Some(Vft { size: None, funcs: vec![f] });
             td.fields.clear();
         } else {
-            m.impls.push(Impl { ty: "T".into(), funcs: vec![f] });
+            m.impls.push(Impl { more: vec![], ty: "T".into(), funcs: vec![f] });
         }
         m.items.push(Item::Type(td));
         let prog = Prog { mods: vec![m] };
@@ -238,13 +238,118 @@ impl Prop for DeclaredOrder {
     }
 }
 
+// ------------------------------------------------------------ attributes on the impl block (L1)
+
+#[derive(Clone, Serialize, Deserialize)]
+pub struct BlockCase {
+    /// attributes written on the `impl` block itself
+    pub block: Vec<String>,
+    /// per function: (address, explicit calling convention, has a receiver)
+    pub funcs: Vec<(u64, Option<String>, bool)>,
+    pub w: u64,
+}
+pub struct BlockAttributes;
+impl Prop for BlockAttributes {
+    type Case = BlockCase;
+    fn name(&self) -> String {
+        "C05/block-attributes".into()
+    }
+    fn rule(&self) -> String {
+        "an impl block that itself carries attributes (an address, a calling convention, a doc comment, an unknown attribute; any subset) around 1-4 functions with addresses and optional conventions of their own. Oracle: the build is an error, or every emitted method mentions its own declared address and not the block's, and its fn-pointer type carries its own declared (or default) convention (syn view). Non-trivial: the block carries an address or a convention".into()
+    }
+    fn gen(&self, t: &mut Tape) -> BlockCase {
+        let mut block = vec![];
+        if t.chance(1, 2) {
+            block.push("address(0xB10C0)".to_string());
+        }
+        if t.chance(1, 2) {
+            block.push(format!("calling_convention({:?})", t.pick(crate::genprog::CCS)));
+        }
+        if t.chance(1, 4) {
+            block.push("doc = \" about the block\"".to_string());
+        }
+        if t.chance(1, 4) {
+            block.push("inline".to_string());
+        }
+        let n = 1 + t.below(4);
+        let funcs = (0..n).map(|k| (0x1000 + 0x40 * k, if t.chance(1, 2) { Some(t.pick(crate::genprog::CCS).to_string()) } else { None }, t.chance(2, 3))).collect();
+        BlockCase {
+            block,
+            funcs,
+            w: if t.chance(1, 2) { 8 } else { 4 },
+        }
+    }
+    fn judge(&self, c: &BlockCase) -> Outcome {
+        let funcs: Vec<Func> = c
+            .funcs
+            .iter()
+            .enumerate()
+            .map(|(k, (addr, cc, recv))| Func {
+                more: vec![],
+                sty: 0,
+                vis: true,
+                name: format!("f{k}"),
+                doc: vec![],
+                args: if *recv { vec![Arg::ConstSelf, Arg::Named("a".into(), Ty::n("u32"))] } else { vec![Arg::Named("a".into(), Ty::n("u32"))] },
+                ret: None,
+                addr: Some(Num::d(*addr as i128)),
+                index: None,
+                cc: cc.clone(),
+            })
+            .collect();
+        let prog = Prog {
+            mods: vec![Mod {
+                path: vec!["m".into()],
+                items: vec![Item::Type(TypeDef {
+                    vis: true,
+                    name: "T".into(),
+                    fields: vec![Field::new("x", Ty::n("u32"))],
+                    ..Default::default()
+                })],
+                impls: vec![Impl {
+                    more: c.block.clone(),
+                    ty: "T".into(),
+                    funcs: funcs.clone(),
+                }],
+                ..Default::default()
+            }],
+        };
+        let nontrivial = c.block.iter().any(|a| a.starts_with("address") || a.starts_with("calling_convention"));
+        let built = match build_prog(&prog, c.w as usize) {
+            Res::Panic(p) => return Outcome::fail("panic", p),
+            Res::Err(_) => return Outcome::pass(nontrivial).class("rejected"),
+            Res::Ok(b) => b,
+        };
+        let v = match crate::rsview::view(&built.files["m.rs"]) {
+            Ok(v) => v,
+            Err(e) => return Outcome::fail("unparsable", e),
+        };
+        for f in &funcs {
+            let Some(mv) = v.method("T", &f.name) else { return Outcome::fail("method-missing", format!("T::{} not emitted", f.name)) };
+            let own = f.addr.as_ref().unwrap().u() as u128;
+            if !mv.body_ints.contains(&own) || mv.body_ints.contains(&0xB10C0) {
+                return Outcome::fail("wrong-address", format!("T::{}: integer literals in the body {:x?}, declared address {own:x} (attributes on the block: {:?})", f.name, mv.body_ints, c.block));
+            }
+            let want = crate::refmodel::Model::expected_cc(f);
+            if mv.body_abis.len() != 1 || mv.body_abis[0].as_deref() != Some(want.as_str()) {
+                return Outcome::fail("wrong-convention", format!("T::{}: fn-pointer ABIs {:?}, the function's own convention is {want} (attributes on the block: {:?})", f.name, mv.body_abis, c.block));
+            }
+        }
+        Outcome::pass(nontrivial).class("accepted")
+    }
+    fn show(&self, c: &BlockCase) -> Value {
+        json!({"block_attributes": c.block, "functions": c.funcs, "width": c.w})
+    }
+}
+
 pub fn props() -> Vec<Box<dyn DynProp>> {
-    vec![Box::new(Calls), Box::new(Rejections), Box::new(DeclaredOrder)]
+    vec![Box::new(Calls), Box::new(Rejections), Box::new(DeclaredOrder), Box::new(BlockAttributes)]
 }
 
 pub fn run(ctx: &mut Ctx) {
     let q = ctx.quick();
     ctx.run(&Rejections, &Params::new(if q { 200 } else { 2000 }, 2, 6));
     ctx.run(&DeclaredOrder, &Params::new(if q { 3000 } else { 30_000 }, 6, 12));
+    ctx.run(&BlockAttributes, &Params::new(if q { 3000 } else { 30_000 }, 10, 24));
     ctx.run(&Calls, &Params::new(if q { 1200 } else { 40_000 }, 200, 3000).shrink(60));
 }
